@@ -694,6 +694,7 @@ func runBridgeEnv(w *tr.W, rng *rand.Rand, dir string, t int, netID uint32, nDep
 	dl := newDownloader("verif-contracts-bridge", o.cl, app, []common.Address{o.bridgeAddr})
 
 	sent, seenDep := 0, map[common.Hash]bool{}
+	firstDep := uint64(0) // block of the first deposit
 	for sent < nDep {
 		if rng.Intn(3) == 0 { // sparse block numbers, varying timestamps
 			if err := o.adjustTime(time.Duration(1+rng.Intn(5000)) * time.Second); err != nil {
@@ -819,6 +820,17 @@ func runBridgeEnv(w *tr.W, rng *rand.Rand, dir string, t int, netID uint32, nDep
 			return err
 		}
 		w.Emit(tr.M{"ev": "sync", "blk": h.Number.Uint64(), "bridge_contract": sealedCount.Uint64(), "bridge_node": nb, "l1_contract": lc, "l1_node": ln})
+		if firstDep == 0 && sealedCount.Uint64() > 0 {
+			firstDep = h.Number.Uint64()
+		}
+	}
+	// the whole bridge syncer as cmd/run.go builds it (bridgesync.NewL1: constructor, real downloader, real driver), started now
+	// on the finished history with InitialBlockNum below the block of the first deposit ("equal or below the creation of the
+	// bridge contract")
+	if firstDep > 1 && sent > 0 {
+		if err := secondBridge(o, dict, netID, []uint64{0, firstDep - 1}[rng.Intn(2)], firstDep, uint64(1+rng.Intn(7)), sent); err != nil {
+			return err
+		}
 	}
 
 	// pure getLeafValue calls: field combinations that cannot be sent as a transaction
@@ -1067,7 +1079,55 @@ func runL1Env(w *tr.W, rng *rand.Rand, dir string, t, nSteps int) error {
 	return nil
 }
 
+// secondBridge starts a second bridge syncer through the real constructor, lets it sync the finished history and records the
+// exit root it holds for every deposit count (judged like the first node's).
+func secondBridge(o *world, dict *names.Dict, netID uint32, ib, first, chunk uint64, n int) error {
+	ctx, cancel := context.WithCancel(o.ctx)
+	defer cancel()
+	tip, err := o.cl.BlockNumber(ctx)
+	if err != nil {
+		return err
+	}
+	n2, err := bridgesync.NewL1(ctx, filepath.Join(o.dir, "bridge-second.sqlite"), o.bridgeAddr, chunk, aggkittypes.LatestBlock, noReorgs{}, o.cl, ib,
+		time.Millisecond, time.Millisecond, 5, netID, false, false)
+	if err != nil {
+		o.w.Emit(tr.M{"ev": "second_bridge", "ib": ib, "first": first, "chunk": chunk, "c": "error", "err": err.Error(), "roots": []tr.M{}, "n": n})
+		return nil
+	}
+	done := make(chan struct{})
+	go func() { n2.Start(ctx); close(done) }()
+	synced := false
+	for t0 := time.Now(); time.Since(t0) < 30*time.Second; time.Sleep(2 * time.Millisecond) {
+		if lpb, err := n2.GetLastProcessedBlock(ctx); err == nil && lpb >= tip {
+			synced = true
+			break
+		}
+	}
+	roots := []tr.M{}
+	for i := 0; i < n; i++ {
+		m := tr.M{"i": i}
+		r, err := n2.GetExitRootByIndex(ctx, uint32(i))
+		m["c"] = classify(err)
+		if err == nil {
+			m["root"] = dict.Of(r.Hash)
+		}
+		roots = append(roots, m)
+	}
+	o.w.Emit(tr.M{"ev": "second_bridge", "ib": ib, "first": first, "chunk": chunk, "c": map[bool]string{true: "ok", false: "notsynced"}[synced],
+		"roots": roots, "n": n})
+	cancel()
+	select {
+	case <-done:
+	case <-time.After(5 * time.Second):
+	}
+	return nil
+}
+
 type noReorgs struct{}
+
+func (noReorgs) GetLastReorgEvent(context.Context) (reorgdetector.ReorgEvent, error) {
+	return reorgdetector.ReorgEvent{}, nil
+}
 
 func (noReorgs) Subscribe(string) (*reorgdetector.Subscription, error) {
 	return &reorgdetector.Subscription{ReorgedBlock: make(chan uint64), ReorgProcessed: make(chan bool)}, nil
